@@ -131,11 +131,12 @@ class Snapshot:
 def build_model(p):
     from xrfm import xRFM
     kw = dict(rfm_params=xc.rfm_params(p['kernel'], diag=p['diag'], iters=p['iters'],
-                                       bandwidth_mode=p.get('bandwidth_mode', 'constant')),
+                                       bandwidth_mode=p.get('bandwidth_mode', 'constant'),
+                                       extra_fit=({'solver': p['solver']} if p.get('solver') else None)),
               max_leaf_size=p['max_leaf_size'], device='cpu', verbose=False, random_state=p['seed'],
               n_threads=p['n_threads'], split_method=p['split_method'], n_trees=p.get('n_trees', 1),
               classification_mode=p.get('classification_mode', 'zero_one'), refill_size=p.get('refill_size', 1500))
-    if p.get('onehot'):
+    if p.get('onehot') or p.get('pm1'):
         # float targets that are already one-hot / binarised are accepted together with a classification metric
         kw.update(tuning_metric=p.get('onehot_metric', 'brier'), classification_mode='zero_one')
     if p['routing'] == 'soft':
@@ -156,6 +157,12 @@ def run_case(p):
     import torch
     data = xc.make_data(p['dseed'], p['n'], p['d'], p['task'])
     cx, cy = p['container_x'], p['container_y']
+    if p.get('pm1'):
+        # binary labels already binarised by the caller as float32 {-1, +1} (accepted: "assuming that y is already binarized")
+        data['y'], data['yv'] = data['y'].float() * 2 - 1, data['yv'].float() * 2 - 1
+        if p.get('y_col'):
+            data['y'], data['yv'] = data['y'].reshape(-1, 1), data['yv'].reshape(-1, 1)
+        cy = cy if cy in ('tensor', 'ndarray32') else 'tensor'
     if p.get('onehot'):
         K = 3 if p['task'] == 'multi' else 2
         oh = lambda lab: (torch.nn.functional.one_hot(lab, K).float() if K > 2 else lab.float().reshape(-1, 1))  # noqa: E731
@@ -356,6 +363,19 @@ def gen_cases(run):
             n=[24, 44, 90, 44][k % 4], d=3, max_leaf_size=24, iters=1, split_method=['pca', 'random'][k % 2],
             seed=r.randint(0, 10 ** 6), dseed=r.randint(0, 10 ** 6), classification_mode='zero_one', n_trees=1,
             bandwidth_mode='constant', y_1d=False, refill_size=1500, onehot=True, onehot_metric=['brier', 'accuracy'][k % 2]))
+    # leaf solvers other than the default, incl. the logistic one on binary labels given as int64 / float {0,1} / float {-1,+1}
+    for k in range(8 if run.tier == 'quick' else 64):
+        solver = ['log_reg', 'cholesky', 'log_reg', 'lu'][k % 4]
+        logistic = solver == 'log_reg'
+        cases.append(dict(
+            family='call-sequences', kernel=['l2', 'l1', 'l2_high_dim'][k % 3], diag=False, task='bin' if logistic else ['reg1', 'multi'][(k // 4) % 2],
+            routing=['hard', 'tuned'][(k // 2) % 2], n_threads=[None, 2][k % 2], env0=envs[k % 4], threads0=[2, 4][k % 2],
+            container_x=['tensor', 'ndarray32'][(k // 2) % 2], container_y=['tensor', 'ndarray32', 'tensor', 'ndarray64'][k % 4],
+            n=[24, 44, 24, 90][(k // 2) % 4], d=3, max_leaf_size=24, iters=[1, 2][k % 2], split_method=['pca', 'random'][k % 2],
+            seed=r.randint(0, 10 ** 6), dseed=r.randint(0, 10 ** 6), classification_mode='zero_one', n_trees=1,
+            bandwidth_mode='constant', y_1d=(k % 2 == 0), refill_size=1500, solver=solver,
+            pm1=logistic and (k // 2) % 3 != 2, onehot=logistic and (k // 2) % 3 == 2, y_col=(k // 4) % 2 == 1,
+            onehot_metric=['accuracy', 'brier'][(k // 2) % 2]))
     # calls whose body raises (outside the property: observation + model comparison)
     n_raise = 8 if run.tier == 'quick' else 64
     for k in range(n_raise):
